@@ -35,6 +35,7 @@ type World struct {
 	Log     []string          // command log for replay files
 	Attr    string            // attribute line for *.bin (default: the line git lfs track writes)
 	HasRoot bool              // a root commit with .gitattributes exists below the spec's commits
+	Direct  bool              // commit pointer text directly (no filter configured for the paths)
 }
 
 // WorldOpts are concretisation-only dimensions: the spec says the answer does not depend on them.
@@ -42,6 +43,7 @@ type WorldOpts struct {
 	Attr        string   // attributes for *.bin, e.g. "filter=lfs diff=lfs merge=lfs -text"
 	Ambient     []string // "section.key=value" entries added to the user's global git config
 	CommitAttrs bool     // track through a committed .gitattributes (root commit) instead of .git/info/attributes
+	NoAttrs     bool     // no tracking at all: pointers are committed as pointer text, objects placed in the store directly
 }
 
 func (w *World) Content(o string) []byte {
@@ -133,6 +135,10 @@ func NewWorldOpts(root, binDir string, seed int64, o WorldOpts) (*World, error) 
 		}
 		w.cur = "main"
 		w.HasRoot = true
+		return w, nil
+	}
+	if o.NoAttrs {
+		w.Direct = true
 		return w, nil
 	}
 	return w, w.SetAttributes(w.Clone)
@@ -246,7 +252,14 @@ func (w *World) Commit(b, p, blob string, age int) error {
 			return fmt.Errorf("add raw: %s", r.All())
 		}
 	default:
-		if IsNonCanon(blob) {
+		if w.Direct {
+			if err := w.EnsureLocalObject(blob); err != nil {
+				return err
+			}
+			if err := w.Env.WriteFile(file, []byte(w.PointerText(blob)), 0o644); err != nil {
+				return err
+			}
+		} else if IsNonCanon(blob) {
 			// the pointer is committed in a non-canonical spelling (clean passes pointers through)
 			if err := w.EnsureLocalObject(blob); err != nil {
 				return err
@@ -273,7 +286,7 @@ func (w *World) Commit(b, p, blob string, age int) error {
 	w.Commits = append(w.Commits, sha)
 	w.Br[b] = len(w.Commits)
 	// leave a pointer (not content) in the work tree
-	if blob != "none" && blob != "raw" {
+	if blob != "none" && blob != "raw" && !w.Direct {
 		os.Remove(file)
 		w.Env.RunIn(w.Clone, skipSmudge, nil, 0, "git", "checkout", "-q", "--", PathFile(p))
 		w.Env.Git(w.Clone, "update-index", "-q", "--refresh")
